@@ -558,8 +558,65 @@ fn gen_combo<C: RangeCombo>(rng: &mut Rng, w: u32, s: u32, bps: &[(u32, Vec<u32>
     }
 }
 
+/// byte-exact example of README-rust.md (range coding): five Gaussian-quantised symbols with
+/// the crate's own `DefaultLeakyQuantizer` at PRECISION 24 must give `[0x1C31EFEB, 0x87B430DA]`;
+/// passed numerically, checked against the implementation (`expect`), the reference (`spec`)
+/// and decoded again by seeking to the start
+pub fn doc_vectors() -> Vec<String> {
+    use constriction::stream::model::{DefaultLeakyQuantizer, EncoderModel};
+    use probability::distribution::Gaussian;
+    let symbols = [23i32, -15, 78, 43, -69];
+    let means = [35.2, -1.7, 30.1, 71.2, -75.1];
+    let stds = [10.1, 25.3, 23.8, 35.4, 3.9];
+    let quantizer = DefaultLeakyQuantizer::new(-100..=100);
+    let mut line = String::from("range 20 40 | new");
+    let mut decs = String::new();
+    for i in 0..5 {
+        let m = quantizer.quantize(Gaussian::new(means[i], stds[i]));
+        let (c, p) = EncoderModel::<24>::left_cumulative_and_probability(&m, symbols[i]).unwrap();
+        let (c, p) = (c as u128, p.get() as u128);
+        line.push_str(&format!(" | enc 20 18 {:x} {:x}", c, p));
+        let (cdf, _) = cdf_around(24, c, c + p);
+        decs.push_str(&format!(" | dec 20 18 {}", show_list(cdf)));
+    }
+    line.push_str(" | expect 1c31efeb,87b430da | export | spec | nw | intodec");
+    line.push_str(&decs);
+    line.push_str(" | exhausted");
+    vec![line]
+}
+
+/// `num_inverted` at the top of `usize`: `pos()`, `num_words()`, `num_bits()` overflow, a further
+/// renormalisation while inverted wraps the counter (`expect` panics).  No op that would flush the
+/// held-back words is used (that would write 2^64 words).
+fn gen_usize_edges(out: &mut Vec<String>) {
+    out.push("range 8 10 | raw - e500 6400 ffffffffffffffff 7e | raw | nw".into());
+    out.push("range 8 10 | raw 5 e500 6400 ffffffffffffffff 7e | pos".into());
+    out.push("range 8 10 | raw - e500 6400 10000000000000000 7e | raw".into());
+    for (w, s, bps) in combos() {
+        // a (B, 1) pair exists for every combination
+        let b = bps.iter().find(|(_, ps)| ps.contains(&1)).map(|(b, _)| *b).unwrap();
+        let u = pow2(s - w);
+        let lower = mask(s) - u / 2; // 2^S - U/2 - 1: the symbol [1, 2) at P = 1 straddles 2^S
+        for n in [u64::MAX as u128, u64::MAX as u128 - 1, u64::MAX as u128 - 2] {
+            for tail in ["nw | nb | pos", "pos | nw", "nb", "snap | empty"] {
+                out.push(format!(
+                    "range {:x} {:x} | raw 1,2 {:x} {:x} {:x} 7e | raw | empty | enc {:x} 1 1 1 | raw | empty | {}",
+                    w, s, lower, u, n, b, tail
+                ));
+                out.push(format!("range {:x} {:x} | raw - {:x} {:x} {:x} 7e | {} | raw", w, s, lower, u, n, tail));
+            }
+        }
+    }
+}
+
 pub fn gen(rng: &mut Rng, tier: &str, out: &mut Vec<String>) {
     let (n_enc, n_dec) = if tier == "thorough" { (5000, 1600) } else { (260, 90) };
+    out.extend(doc_vectors());
+    gen_usize_edges(out);
+    // tables that violate the hypothesis of the table round-trip theorem are refused
+    out.push("rangedec 8 10 | words 12,34 | dec 8 8 0,80,80,100 | raw".into());
+    out.push("rangedec 8 10 | words 12,34 | dec 8 8 0,100 | raw".into());
+    out.push("range 8 10 | new | enc 8 8 0 80 | decoder 8 8 0,80,100 8 8 1,80,100 | raw".into());
     gen_sweeps(rng, tier, out);
     // a malformed line and glue cases
     out.push("range 8 10 | new | frobnicate".into());
